@@ -333,6 +333,36 @@ Definition c01_tw_mv (mtvW : list R -> list R -> list R) (x y : list R) : list R
 Definition c01_tw_mtv (mvW : list R -> list R -> list R) (x y : list R) : list R := mvW x y.
 Definition c01_tw_asdense (A : list (list R)) : list (list R) := c01_transposed A.
 
+(* ------------------------------------------------------------------ assignment from a scalar / from another vector
+   (DenseVector::operator=(const value_type&), operator=(const DenseVector<W>&), the FieldVector / DynamicVector
+   converting constructors; DenseMatrixAssigner for a scalar: std::fill over the rows) *)
+Definition c01_fill (x : list R) (k : R) : list R :=
+  c01_for (length x) (fun i v => c01_upd v i k) x.
+Definition c01_vassign (x y : list R) : list R :=
+  c01_for (length x) (fun i v => c01_upd v i (c01_at y i)) x.
+Definition c01_mfill (A : list (list R)) (k : R) : list (list R) :=
+  c01_for (c01_rows A) (fun i M => c01_upd M i (c01_fill (c01_row M i) k)) A.
+
+(* FMatrixHelp::multTransposedMatrix: ret[i][j] = 0; for k<rows ret[i][j] += A[k][i]*A[k][j]   (ret = A^T A) *)
+Definition c01_mult_transposed (r c : nat) (A T0 : list (list R)) : list (list R) :=
+  c01_for c (fun i T =>
+    c01_for c (fun j T =>
+      c01_for r (fun k T => c01_set2 T i j (add (c01_get T i j) (mul (c01_get A k i) (c01_get A k j))))
+              (c01_set2 T i j zero)) T) T0.
+
+(* ------------------------------------------------------------------ norms that are exact on integers (densevector.hh 622-722,
+   densematrix.hh 528-605): nrm is |.| (one_norm, infinity_norm on real fields), |re|+|im| (one_norm_real,
+   infinity_norm_real) or |.|^2 (two_norm2); the result type is the real type, modelled by Z *)
+Definition c01_norm_sum (nrm : R -> Z) (x : list R) : Z :=
+  c01_for (length x) (fun i res => Z.add res (nrm (c01_at x i))) 0%Z.
+Definition c01_norm_max (nrm : R -> Z) (x : list R) : Z :=
+  c01_for (length x) (fun i res => Z.max (nrm (c01_at x i)) res) 0%Z.
+(* frobenius_norm2: sum over the rows of two_norm2; infinity_norm(_real): max over the rows of one_norm(_real) *)
+Definition c01_mnorm_sum (nrm : R -> Z) (A : list (list R)) : Z :=
+  c01_for (c01_rows A) (fun i res => Z.add res (c01_norm_sum nrm (c01_row A i))) 0%Z.
+Definition c01_mnorm_inf (nrm : R -> Z) (A : list (list R)) : Z :=
+  c01_for (c01_rows A) (fun i res => Z.max (c01_norm_sum nrm (c01_row A i)) res) 0%Z.
+
 End Model.
 
 (* ------------------------------------------------------------------ instances *)
@@ -377,3 +407,11 @@ Definition c01_P_div (p : Z) (a k : Z) : option Z :=
 Definition c01_P_ops (p : Z) : c01_ops Z :=
   C01_Ops Z 0 (1 mod p) (fun a b => (a + b) mod p) (fun a b => (a * b) mod p) (fun a b => (a - b) mod p)
           (fun a => (- a) mod p) (fun a => a) (c01_P_div p) (fun a b => Z.eqb (a mod p) (b mod p)).
+
+(* absolute values used by the norms, per instance *)
+Definition c01_Z_abs (a : Z) : Z := Z.abs a.
+Definition c01_Z_abs2 (a : Z) : Z := a * a.
+Definition c01_G_absreal (a : Z * Z) : Z := Z.abs (fst a) + Z.abs (snd a).
+Definition c01_G_abs2 (a : Z * Z) : Z := fst a * fst a + snd a * snd a.
+(* the comparison operators of FieldVector<K,1> with K = int, double: > >= < <= *)
+Definition c01_Z_cmp4 (a b : Z) : list bool := [Z.gtb a b; Z.geb a b; Z.ltb a b; Z.leb a b].
